@@ -85,6 +85,16 @@ type PureFunc struct {
 	State   bool // mutable ghost state (a state component indexed by the single parameter)
 }
 
+// TypeMethods: `type-methods[label] pkg/path.Type: M1 M2` — the method set of *Type is exactly these methods. Library code
+// (io.Copy, encoding/json) looks for optional methods (ReadFrom, WriteTo, UnmarshalJSON, MarshalJSON) by dynamic
+// dispatch: a new method on a type changes behaviour that no call graph of the repository shows.
+type TypeMethods struct {
+	Label   string
+	Type    string
+	Methods []string
+	Where   string
+}
+
 type Lemma struct {
 	Label  string
 	Clause *Clause
@@ -99,14 +109,15 @@ type PkgCtx struct {
 }
 
 type Specs struct {
-	Contracts map[string]*Contract
-	Pure      map[string]*PureFunc
-	Lemmas    []*Lemma
-	GlobalInv []*Clause
-	Axioms    []*Clause
-	Universal []string // properties to which every function under contract contributes its unlabelled obligations
-	Files     []string
-	P         *Program
+	Contracts   map[string]*Contract
+	Pure        map[string]*PureFunc
+	Lemmas      []*Lemma
+	GlobalInv   []*Clause
+	Axioms      []*Clause
+	Universal   []string // properties to which every function under contract contributes its unlabelled obligations
+	TypeMethods []*TypeMethods
+	Files       []string
+	P           *Program
 }
 
 func (c *Contract) loop(k int) *LoopSpec {
@@ -663,6 +674,13 @@ func (S *Specs) parseLines(lines []rawLine, ctx *PkgCtx, pkgShort string, extern
 			if c := mkClause(l, "axiom", label, rest); c != nil {
 				S.Axioms = append(S.Axioms, c)
 			}
+		case "type-methods":
+			i := strings.Index(rest, ":")
+			if i < 0 {
+				fail(l, "type-methods: expected `<type>: <methods>`")
+				continue
+			}
+			S.TypeMethods = append(S.TypeMethods, &TypeMethods{Label: label, Type: strings.TrimSpace(rest[:i]), Methods: strings.Fields(rest[i+1:]), Where: l.where})
 		case "safety-property":
 			// `safety-property Cxx`: the unlabelled obligations (no panic, no overflow, callee preconditions, loop
 			// invariants, frames) of every function under contract count for property Cxx
@@ -832,7 +850,7 @@ func resolveTypeExpr(ctx *PkgCtx, e ast.Expr) (types.Type, error) {
 
 var directiveWords = map[string]bool{"import": true, "package": true, "func": true, "extern": true, "verify": true, "props": true, "trusted": true,
 	"pure": true, "ghost": true, "opaque": true, "nooverflow": true, "dead-return": true, "calls-back": true, "os-calls-only": true, "interference": true, "requires": true, "ensures": true, "ensures-local": true, "ensures-ghost": true, "modifies": true,
-	"loop": true, "callback": true, "at": true, "lemma": true, "global": true, "axiom": true, "safety-property": true}
+	"loop": true, "callback": true, "at": true, "lemma": true, "global": true, "axiom": true, "safety-property": true, "type-methods": true}
 
 func startsWithDirective(body string) bool {
 	t := strings.TrimSpace(body)
